@@ -53,14 +53,14 @@ package utilities
 //@   nopanic
 //
 //@ func NewCharReferenceMap
-//@   ensures[C17,C13,C09,C16] fresh(result) && mapInv(result)
+//@   ensures[C17,C13,C09,C16] fresh(result) && mapInv(result) && fresh(result.initialInterval)
 //@   ensures[C17,C13,C09,C16] forall ch rune :: view(result, ch) == nil
 //@   assigns nothing
 //@   nopanic
 //
 //@ func (c *CharReferenceMap) Clear
 //@   requires c != nil
-//@   ensures[C17,C13,C09,C16] mapInv(c)
+//@   ensures[C17,C13,C09,C16] mapInv(c) && fresh(c.initialInterval)
 //@   ensures[C17,C13,C09,C16] forall ch rune :: view(c, ch) == nil
 //@   assigns c.initialInterval, c.otherIntervals
 //@   nopanic
